@@ -50,11 +50,54 @@ func vFieldLoadO(typeName, field string) VPred {
 	return vOrigins(oFieldLoad(typeName, field, nil))
 }
 
+// resOf returns result #i of a return, looking through the result-cell spilling that go/ssa performs for functions
+// with defers (`*r0 = v; rundefers; return *r0`): the value is the last store to the cell in the return's block.
+func resOf(r *ssa.Return, i int) ssa.Value {
+	if i >= len(r.Results) {
+		return nil
+	}
+	v := r.Results[i]
+	ld, ok := v.(*ssa.UnOp)
+	if !ok || ld.Op != token.MUL {
+		return v
+	}
+	al, ok := ld.X.(*ssa.Alloc)
+	if !ok {
+		return v
+	}
+	blk := r.Block()
+	for j := len(blk.Instrs) - 1; j >= 0; j-- {
+		if st, ok := blk.Instrs[j].(*ssa.Store); ok && st.Addr == ssa.Value(al) {
+			return st.Val
+		}
+	}
+	return v
+}
+
 // successReturns lists the returns of f whose result #errIdx is the nil constant.
 func successReturns(f *ssa.Function, errIdx int) []*ssa.Return {
 	var out []*ssa.Return
 	for _, r := range returnsOf(f) {
-		if errIdx < len(r.Results) && isNilConst(r.Results[errIdx]) {
+		if isRecoverReturn(r) {
+			continue
+		}
+		if errIdx < len(r.Results) && isNilConst(resOf(r, errIdx)) {
+			out = append(out, r)
+		}
+	}
+	return out
+}
+
+// isRecoverReturn: the synthetic return of the recover block of a function with defers.
+func isRecoverReturn(r *ssa.Return) bool {
+	return r.Parent().Recover != nil && r.Block() == r.Parent().Recover
+}
+
+// realReturns lists the returns of f except the synthetic recover-block return.
+func realReturns(f *ssa.Function) []*ssa.Return {
+	var out []*ssa.Return
+	for _, r := range returnsOf(f) {
+		if !isRecoverReturn(r) {
 			out = append(out, r)
 		}
 	}
